@@ -26,7 +26,7 @@ import (
 func TestC18Notify(t *testing.T) {
 	col := stats.New("C18", t.Name(),
 		"generated client/server histories (C05/C06 generators incl. bursts, empty pushes, several keys per message) against the real server whose notifier talks to an in-process MQTT broker that records every publish; publishes are matched by content: every request that stored >=1 operation of a datatype expects exactly one publish {CUID = pusher, DUID = the datatype, sseq = new end of its log} on topic <collection>/<key> (it must arrive within 30 s; the server publishes with QoS 0 after the response), "+
-			"every publish must consume one such expectation - a publish by a pull-only sync, a duplicate, or a wrong end of log has none; "+
+			"every publish must consume one such expectation - a publish by a pull-only sync, a duplicate, or a wrong end of log has none; REST patches of existing documents are mixed in (a push by the endpoint's own client: one publish, carrying an id that is not the id of any registered client); "+
 			"non-trivial = the history mixes pushing and pull-only syncs of >=2 clients; distinct = hash of the action sequence")
 	checkProp(t, "C18", col, func(c *caseCtx) {
 		rt := c.rt
@@ -86,7 +86,13 @@ func TestC18Notify(t *testing.T) {
 					if !ok {
 						c.failf("a notification {datatype %s, sseq %d, cuid %s} on topic %q was published although no request stored operations up to that end of the log (pull-only sync, duplicate, or wrong sseq); outstanding: %v", n.DUID, n.Sseq, n.CUID, p.Topic, expected)
 					}
-					if n.CUID != e.cuid {
+					if e.cuid == "" {
+						// a REST patch is pushed by the endpoint's own pseudo-client: the announcement must not carry
+						// the id of any real client (that client would take it for its own and not pull)
+						if n.CUID == "" || knownCUIDs[n.CUID] {
+							c.failf("notification for %s (%s) carries CUID %q: empty, or the id of a registered client that did not push this", key, e.by, n.CUID)
+						}
+					} else if n.CUID != e.cuid {
 						c.failf("notification for %s carries CUID %s, the pusher (%s) is %s", key, n.CUID, e.by, e.cuid)
 					}
 					if p.Topic != e.topic {
@@ -135,8 +141,44 @@ func TestC18Notify(t *testing.T) {
 		for _, a := range genPrelude(rt, w, 3) {
 			run(a)
 		}
+		// a push through the REST patch endpoint is a push like any other: it stores operations under the
+		// endpoint's own client id and has to be announced on the document's topic
+		patches, patchPublishes := 0, 0
+		patch := func(k *l1Key, i int) {
+			patchesHappened = true
+			js := fmt.Sprintf(`{"p":%d,"q":{"r":[%d]}}`, i, i)
+			c.j.add(map[string]interface{}{"k": "rest-patch", "key": k.Name, "json": js})
+			canon.WriteString("patch(" + k.Name + ");")
+			before := logLens()
+			resp, err, timedOut := w.env.PatchDocument(&model.PatchMessage{Collection: w.col, Key: k.Name, Json: js}, l1Deadline)
+			if timedOut || err != nil || resp == nil {
+				c.failf("REST patch of %s: timeout=%v err=%v", k.Name, timedOut, err)
+			}
+			patches++
+			w.env.WaitBackground(5 * time.Second)
+			for duid, end := range logLens() {
+				if end > before[duid] {
+					patchPublishes++
+					expected[fmt.Sprintf("%s:%d", duid, end)] = expect{cuid: "", topic: w.col + "/" + keyOf(duid), by: "REST patch of " + k.Name}
+				}
+			}
+			drain(30 * time.Second)
+			if len(expected) > 0 {
+				c.failf("a REST patch stored operations but these notifications were not published within 30 s: %v", expected)
+			}
+		}
 		n := rapid.IntRange(3, 30).Draw(rt, "steps")
 		for i := 0; i < n; i++ {
+			var docKeys []*l1Key
+			for _, k := range w.keys {
+				if k.Kind == sim.Document && k.created {
+					docKeys = append(docKeys, k)
+				}
+			}
+			if len(docKeys) > 0 && rapid.IntRange(0, 7).Draw(rt, "rest_patch") == 0 {
+				patch(docKeys[rapid.IntRange(0, len(docKeys)-1).Draw(rt, "patch_key")], i)
+				continue
+			}
 			a := genL1Action(rt, w, 4)
 			if a.K == "settle" {
 				a = l1Action{K: "sync", C: a.C}
@@ -153,7 +195,11 @@ func TestC18Notify(t *testing.T) {
 				both++
 			}
 		}
-		col.Case(len(pushing) >= 2 && len(pullOnly) >= 1, canon.String(), []string{fmt.Sprintf("pushers=%d", len(pushing))}, func() interface{} {
+		nlabels := []string{fmt.Sprintf("pushers=%d", len(pushing))}
+		if patchPublishes > 0 {
+			nlabels = append(nlabels, "rest-patch-that-stored-operations")
+		}
+		col.Case(len(pushing) >= 2 && len(pullOnly) >= 1, canon.String(), nlabels, func() interface{} {
 			return map[string]interface{}{"kinds": kinds, "actions": canon.String(), "publishes": len(w.env.MQTT.Publishes())}
 		})
 	})
